@@ -80,7 +80,11 @@ def tr_expr(node, call, env):
         if isinstance(node.value, ast.Attribute) and isinstance(node.value.value, ast.Name) and node.value.value.id == "self":
             return call.new_attr(node.value.attr)  # any rendering of an engine attribute: arbitrary string
         if node.format_spec is not None or node.conversion not in (-1, 115):
-            raise Unencodable("format spec / conversion on a non-counter value")
+            # a formatted rendering of some other value (e.g. f"{random.getrandbits(128):032x}"): nothing but uuid4 carries a
+            # distinctness contract, so the rendering is an arbitrary string (sound over-approximation for the uniqueness VC;
+            # a sat answer is replayed on the real code, also with the global PRNG re-seeded between requests)
+            call.approximated.append(ast.unparse(node.value)[:60])
+            return z3.String(f"fmt{call.i}_{len(call.approximated)}")
         return tr_expr(node.value, call, env)
     if isinstance(node, ast.BinOp) and isinstance(node.op, ast.Add):
         return z3.Concat(tr_expr(node.left, call, env), tr_expr(node.right, call, env))
@@ -322,6 +326,19 @@ def real_collision(prefix="leaf"):
         a, b = _forced_lost_update(pfx)
         if a is not None and a == b:
             return True, f"two threads under the read/read/write/write schedule both got {a!r}"
+        # environment history: the process-global PRNG is seedable (reproducible runs, forked workers); only uuid4 /
+        # os.urandom carry a distinctness contract.  Two engines asked after the same seeding:
+        import random as _random
+        state = _random.getstate()
+        try:
+            got = []
+            for mk in (lambda: iteration.Engine(name="e1"), lambda: sql.Engine(name="e2")):
+                _random.seed(12345)
+                got.append(mk().get_relation_name(pfx))
+        finally:
+            _random.setstate(state)
+        if got[0] == got[1]:
+            return True, f"two engines asked after random.seed(12345) both returned {got[0]!r} (prefix {pfx!r})"
         tried.append((pfx[:8], names[:2], [a, b]))
     return False, f"no collision reproduced: {tried}"
 
@@ -340,8 +357,11 @@ def run_shape(shape, tier):
         e.relation_name_counter = 7
         hexes = ["0123456789abcdef0123456789abcdef", "fedcba9876543210fedcba9876543210", "00000000000000000000000000000001"]
         it = iter(hexes)
-        orig = engmod.uuid.uuid4
-        engmod.uuid.uuid4 = lambda: _FakeUUID(next(it))
+        orig = uuid.uuid4
+        orig_local = getattr(engmod, "uuid4", None)
+        uuid.uuid4 = lambda: _FakeUUID(next(it))
+        if orig_local is not None:
+            engmod.uuid4 = uuid.uuid4
         try:
             real = [e.get_relation_name("pfx"), LeafRelation(e, frozenset(), iteration.RowSequence([]), name="").name]
             leaf = LeafRelation(e, frozenset(), iteration.RowSequence([{}]), name="L0", min_rows=0, max_rows=None)
@@ -349,7 +369,9 @@ def run_shape(shape, tier):
             mat = Deduplication().apply(leaf).materialized()
             real.append(mat.name)
         finally:
-            engmod.uuid.uuid4 = orig
+            uuid.uuid4 = orig
+            if orig_local is not None:
+                engmod.uuid4 = orig_local
         expect_prefix = ["pfx", "leaf", "materialization"]
         ok = True
         detail = []
